@@ -218,3 +218,52 @@ func vh_C19_Mul() {
 	vAssert(vVal(&r).Eq(vVal(&x).Mul(vVal(&y)).Mod(L)), "Mul = (x * y) mod L")
 	vAssert(vInReducedForm(&r), "output limbs in reduced form")
 }
+
+// ---------------------------------------------------------------------------
+// C16/C19: sliding-window recoding.  N symbolic scalar bits are placed at an offset (the remaining bits are
+// zero); the real ContractSlidingWindow runs to completion with fork-and-merge execution, and the result must
+// represent exactly the input: sum r_i 2^i == s, every non-zero digit odd with |r_i| <= 2^(w-1) - 1, and (for the
+// double-base multiplication) at most one non-zero digit in any w consecutive positions is implied by oddness
+// and the magnitude bound.  Offsets: 0, the limb boundaries, and the top end (bits up to 252, since scalars
+// are below L < 2^253).
+var vSlideOffsets = [...]int{0, 50, 106, 162, 218, -1}
+
+func vSlidingCase(window uint) {
+	vPrune(true) // digits above the symbolic region are semantically zero: infeasible sides of a fork are pruned by the solver
+	n := 8
+	if vTier() == 1 {
+		n = 14
+	}
+	off := vSlideOffsets[vCase(0, len(vSlideOffsets)-1)]
+	if off < 0 {
+		off = 253 - n
+	}
+	vNote("sliding-window recoding: quick 8 / thorough 14 symbolic bits at offsets {0, 50, 106, 162, 218, 253-N}, windows 5 and 7; all other scalar bits zero")
+	bits := vU32("bits")
+	vAssume(bits < 1<<uint(n))
+	// place the bits: build the 32-byte little-endian scalar and expand it with the real ExpandRaw
+	var b [32]byte
+	v := uint64(bits)
+	for i := 0; i < n; i++ {
+		if (v>>uint(i))&1 != 0 {
+			b[(off+i)/8] |= 1 << uint((off+i)%8)
+		}
+	}
+	var s Bignum256
+	ExpandRaw(&s, b[:])
+	var r [256]int8
+	ContractSlidingWindow(&r, &s, window)
+	vReach("ContractSlidingWindow returned")
+	sum := vZi(0)
+	ok := true
+	m := int8(1)<<(window-1) - 1
+	for i := 0; i < 256; i++ {
+		sum = sum.Add(vZi(int(r[i])).Shl(i))
+		ok = ok && (r[i] == 0 || (r[i]&1 == 1 && r[i] <= m && r[i] >= -m))
+	}
+	vAssert(sum.Eq(vZu(uint64(bits)).Shl(off)), "sum of digits * 2^i == s")
+	vAssert(ok, "non-zero digits are odd and bounded by 2^(w-1) - 1")
+}
+
+func vh_C19_ContractSlidingWindow5() { vSlidingCase(5) }
+func vh_C19_ContractSlidingWindow7() { vSlidingCase(7) }
